@@ -11,6 +11,9 @@ META = {
                    "the forward pointer exactly once (the value tested for termination is the value used to reach the next element); the macro inventory of the headers equals the witness coverage.",
     "not_decided": "reader-sees-consistent-list as a property of all interleavings with the updater",
 }
+
+META["explanation"] += " " + 'Also: exact symbolic post-state (store-forwarding walk of each path) of all six update primitives over the pre-state: forward and backward links of the new node and both neighbours.'
+META["technique"] = 'static analysis: publish-last / consume-load rules on every macro instance plus symbolic post-state evaluation of the update primitives (witness unit, no execution)'
 MOD = "w_rculist"
 FWD = ("cds_list_head.next", "cds_hlist_node.next", "cds_hlist_head.next")
 PREV = ("cds_list_head.prev", "cds_hlist_node.prev")
